@@ -28,7 +28,7 @@ func init() {
 			{ID: "R10.2", Template: "T-WHOCALLS", Text: "closed words have an atomic type and are only accessed through Load and CompareAndSwap", Min: 2},
 			{ID: "R10.3", Template: "T-MUSTPASS", Text: "every call of the resource-release function is dominated by the success branch of a CAS on the instance's closed word (directly or through a wrapper that returns the CAS result)", Min: 3},
 			{ID: "R10.4", Template: "T-MUSTPASS", Text: "every call of Engine.CompileModule / Store.Instantiate in the public package is dominated by the pass branch of the runtime-closed check", Min: 3},
-			{ID: "R10.5", Template: "T-CONSULT", Text: "registry insert is dominated by the closed-sentinel test and the name-taken test; delete clears prev/next; store close nils the registry", Min: 4},
+			{ID: "R10.5", Template: "T-CONSULT", Text: "registry insert (name map, module list, type ids) is dominated by the closed-sentinel test and the name-taken test; the name is released only by its owner and on the field's current map; delete clears prev/next; store close nils the registry", Min: 7},
 		},
 		Run: runC10,
 		Controls: []core.Control{
@@ -521,12 +521,131 @@ func checkRegistry(c *core.Ctx) {
 		}
 		return nil
 	}
+	// nil-sentinel test on a Store map field: returns the polarity on which the map is known non-nil
+	nonNilBranch := func(fld *types.Var) func(cond ssa.Value) int {
+		return func(cond ssa.Value) int {
+			bo, ok := cond.(*ssa.BinOp)
+			if !ok || (bo.Op != token.EQL && bo.Op != token.NEQ) {
+				return 0
+			}
+			var other ssa.Value
+			if k, ok := bo.Y.(*ssa.Const); ok && k.IsNil() {
+				other = bo.X
+			} else if k, ok := bo.X.(*ssa.Const); ok && k.IsNil() {
+				other = bo.Y
+			}
+			if other == nil || fieldOf(other) != fld {
+				return 0
+			}
+			if bo.Op == token.EQL {
+				return -1
+			}
+			return 1
+		}
+	}
+	// the sentinel fields: map fields of Store that the store-closing function sets to nil
+	sentinel := map[*types.Var]bool{}
+	storeNamed := core.NamedOf(c.Pkg("internal/wasm").Types.Scope().Lookup("Store").Type())
+	for _, fn := range moduleFns(c, "internal/wasm") {
+		nilsName := false
+		var nilled []*types.Var
+		for _, b := range fn.Blocks {
+			for _, in := range b.Instrs {
+				if st, ok := in.(*ssa.Store); ok {
+					if fa, ok := st.Addr.(*ssa.FieldAddr); ok && core.NamedOf(fa.X.Type()) == storeNamed {
+						if k, ok := st.Val.(*ssa.Const); ok && k.IsNil() {
+							f := derefStructT(fa.X.Type()).Underlying().(*types.Struct).Field(fa.Field)
+							if _, isMap := f.Type().Underlying().(*types.Map); isMap {
+								nilled = append(nilled, f)
+								if f == nameMap {
+									nilsName = true
+								}
+							}
+						}
+					}
+				}
+			}
+		}
+		if nilsName {
+			for _, f := range nilled {
+				sentinel[f] = true
+			}
+		}
+	}
+	// reaches: can control flow from instruction a reach instruction b inside one function (block-level, same block by order)
+	reaches := func(a, b ssa.Instruction) bool {
+		if a.Block() == b.Block() {
+			ia, ib := -1, -1
+			for i, in := range a.Block().Instrs {
+				if in == a {
+					ia = i
+				}
+				if in == b {
+					ib = i
+				}
+			}
+			if ia < ib {
+				return true
+			}
+		}
+		seen := map[*ssa.BasicBlock]bool{}
+		work := append([]*ssa.BasicBlock{}, a.Block().Succs...)
+		for len(work) > 0 {
+			bb := work[len(work)-1]
+			work = work[:len(work)-1]
+			if seen[bb] {
+				continue
+			}
+			seen[bb] = true
+			if bb == b.Block() {
+				return true
+			}
+			work = append(work, bb.Succs...)
+		}
+		return false
+	}
+	// staleAlias: a write through a map value loaded from field fld while the field may have been replaced in between
+	staleAlias := func(fn *ssa.Function, mapVal ssa.Value, use ssa.Instruction, fld *types.Var) string {
+		ld, ok := mapVal.(*ssa.UnOp)
+		if !ok {
+			return ""
+		}
+		for _, b := range fn.Blocks {
+			for _, in := range b.Instrs {
+				st, ok := in.(*ssa.Store)
+				if !ok {
+					continue
+				}
+				fa, ok := st.Addr.(*ssa.FieldAddr)
+				if !ok {
+					continue
+				}
+				if s2, _ := derefStructT(fa.X.Type()).Underlying().(*types.Struct); s2 == nil || s2.Field(fa.Field) != fld {
+					continue
+				}
+				if reaches(ld, st) && reaches(st, use) {
+					return fmt.Sprintf("the map written at %s was loaded from %s at %s, but the field is replaced at %s in between: the write lands on the discarded map", c.Pos(use.Pos()), fld.Name(), c.Pos(ld.Pos()), c.Pos(st.Pos()))
+				}
+			}
+		}
+		return ""
+	}
 	inserts, deletes, nils := 0, 0, 0
 	for _, fn := range moduleFns(c, "internal/wasm") {
 		for _, b := range fn.Blocks {
 			for _, in := range b.Instrs {
 				switch x := in.(type) {
 				case *ssa.MapUpdate:
+					if f := fieldOf(x.Map); f != nil && sentinel[f] {
+						okS := guardedBy(b, nonNilBranch(f))
+						if f != nameMap {
+							c.Check(okS, "R10.5", "closed-sentinel before insert into "+f.Name()+" in "+core.SSAFuncName(fn), in.Pos(),
+								"insert dominated by the not-nil branch of the map's nil test", "insert into Store."+f.Name()+" is not guarded by the closed-store sentinel: after Runtime.Close the map is nil and the insert panics instead of failing with an error")
+						}
+						if msg := staleAlias(fn, x.Map, in, f); msg != "" {
+							c.Violate("R10.5", "current-map write to "+f.Name()+" in "+core.SSAFuncName(fn), in.Pos(), msg)
+						}
+					}
 					if fieldOf(x.Map) != nameMap {
 						continue
 					}
@@ -576,6 +695,30 @@ func checkRegistry(c *core.Ctx) {
 				case *ssa.Call:
 					if bi, ok := x.Common().Value.(*ssa.Builtin); ok && bi.Name() == "delete" && fieldOf(x.Common().Args[0]) == nameMap {
 						deletes++
+						if msg := staleAlias(fn, x.Common().Args[0], in, nameMap); msg != "" {
+							c.Violate("R10.5", "current-map write to nameToModule in "+core.SSAFuncName(fn), in.Pos(), msg)
+						} else {
+							c.Discharge("R10.5", "current-map write to nameToModule in "+core.SSAFuncName(fn), in.Pos(), "the map deleted from is the field's current value")
+						}
+						owner := guardedBy(b, func(cond ssa.Value) int {
+							bo, ok := cond.(*ssa.BinOp)
+							if !ok || bo.Op != token.EQL {
+								return 0
+							}
+							for _, pr := range [][2]ssa.Value{{bo.X, bo.Y}, {bo.Y, bo.X}} {
+								lk, ok := pr[0].(*ssa.Lookup)
+								if !ok || fieldOf(lk.X) != nameMap || !sameValue(lk.Index, x.Common().Args[1]) {
+									continue
+								}
+								if _, isParam := pr[1].(*ssa.Parameter); isParam {
+									return 1
+								}
+							}
+							return 0
+						})
+						c.Check(owner, "R10.5", "owner-only name release in "+core.SSAFuncName(fn), in.Pos(),
+							"the name is deleted only when the registry entry is the instance being removed",
+							"the name is deleted without checking that the registry entry belongs to the instance being removed: closing an instance that failed to register (duplicate name) evicts the live owner, whose name can then be taken by a second open module")
 						// same function must store nil to prev and next of the deleted module
 						clearedPrev, clearedNext := false, false
 						for _, bb := range fn.Blocks {
@@ -603,6 +746,15 @@ func checkRegistry(c *core.Ctx) {
 							fmt.Sprintf("removed instance keeps a list pointer (prev cleared=%v, next cleared=%v): a second delete (idempotent close) would unlink live neighbours", clearedPrev, clearedNext))
 					}
 				case *ssa.Store:
+					if fa, ok := x.Addr.(*ssa.FieldAddr); ok {
+						if s, _ := derefStructT(fa.X.Type()).Underlying().(*types.Struct); s != nil && s.Field(fa.Field) == list {
+							if _, isParam := x.Val.(*ssa.Parameter); isParam {
+								c.Check(guardedBy(b, nonNilBranch(nameMap)), "R10.5", "closed-sentinel before list insert in "+core.SSAFuncName(fn), in.Pos(),
+									"linking the instance into the module list is dominated by the closed-store sentinel test",
+									"an instance is linked into the module list without the closed-store sentinel test: an (anonymous) module can be registered into a closed store and outlive Runtime.Close")
+							}
+						}
+					}
 					if fa, ok := x.Addr.(*ssa.FieldAddr); ok {
 						if s, _ := derefStructT(fa.X.Type()).Underlying().(*types.Struct); s != nil && s.Field(fa.Field) == nameMap {
 							if k, ok := x.Val.(*ssa.Const); ok && k.IsNil() {
